@@ -22,6 +22,8 @@ class Ghost:
         self.exp = []     # (v cells tuple, R 3x3 array)
         self.log = []     # (R cells tuple, v cells tuple)
         self.n = 0
+        self.cutoff_hits = []   # round-trip lemmas that took the library's 1e-6 cut-off branch on this path
+        self.roundtrip = True   # apply the C01 round-trip lemmas exp(log R) / log(exp v)
 
     def fresh_unit_quat(self, ctx, alg, tag):
         self.n += 1
@@ -113,6 +115,23 @@ def make_stubs(mr, counters=None):
         for (v0, R0) in gh.exp:
             if _same(alg, v, v0):
                 return R0.copy()
+        if gh.roundtrip:
+            # C01 lemma ExpLog3_c: MatrixExp3(MatrixLog3(X)) = X exactly when |log X| >= 1e-6; otherwise the
+            # result is I (cut-off) and X is within 5e-6 of I
+            for (R0, v0) in gh.log:
+                if _same(alg, v, v0):
+                    X = npx.S(_np.array(R0, dtype=object).reshape(3, 3))
+                    th = S.norm(list(v0))
+                    if th < S.CUTOFF:
+                        gh.cutoff_hits.append('exp(log X) with |log X| < 1e-6')
+                        I = npx.eye(3)
+                        for i in range(3):
+                            for j in range(3):
+                                ctx.assume(T.le(abs(X[i, j] - I[i, j]), 5e-6), tag='C01 lemma: X within 5e-6 of I')
+                        gh.exp.append((v, I))
+                        return I.copy()
+                    gh.exp.append((v, X))
+                    return X.copy()
         e = gh.fresh_unit_quat(ctx, alg, 'e')
         R = S.Rq(e)
         gh.exp.append((v, R))
@@ -141,6 +160,15 @@ def make_stubs(mr, counters=None):
         for (R0, v0) in gh.log:
             if _same(alg, rc, R0):
                 return S.hat3(list(v0))
+        if gh.roundtrip:
+            # C01 lemma LogExp3_c: MatrixLog3(MatrixExp3(hat v)) = hat v exactly when 1e-6 <= |v| < pi
+            for (v0, R0) in gh.exp:
+                if _same(alg, rc, _cells(R0)) and not all(x.is_const() for x in v0):
+                    th = S.norm(list(v0))
+                    if th >= S.CUTOFF and th < T.PI:
+                        gh.log.append((rc, tuple(v0)))
+                        return S.hat3(list(v0))
+                    break
         gh.n += 1
         v = tuple(SR.var('l%d_%d' % (gh.n, i)) for i in range(3))
         gh.log.append((rc, v))
